@@ -334,6 +334,8 @@ def get_switched_peak_array_indices(values, tol=0.0):
     -------
     array_like
     """
+    # enforce array type
+    values = np.array(values, dtype=float)
     peak_indices = get_peak_array_indices(values)
     peak_values = np.take(values, peak_indices)
 
